@@ -55,6 +55,9 @@ pub fn compress_fastest<M: Matcher>(
             // Write the header, then the block
             header.serialize(output);
             output.extend_from_slice(state.matcher.get_last_space());
+            // The compressed block is thrown away, so the decoder never sees a huffman table it may have contained.
+            // Forget our table so the next block does not refer to a table the decoder does not have.
+            state.last_huff_table = None;
         } else {
             let header = BlockHeader {
                 last_block,
